@@ -218,8 +218,19 @@ def run(ctx):
         disc += d
         if cr is not None:
             crystals.append({"id": sg, "crystal": cr})
-    outs = C.impl_run_parallel("c14_impl", [{"info": crystals[i::C.NCPU]} for i in range(C.NCPU)])
+    outs = C.impl_run_parallel("c14_impl", [{"info": crystals[i::C.NCPU], "use_then_dump": True} for i in range(C.NCPU)])
     rows = [r for o in outs for r in o["info"]]
+    # the tables as imported must still be the translated tables after the library was used on these crystals
+    changed = sorted({k for o in outs for k in o.get("tables_changed_by_use", [])})
+    ctx.coverage["tables_unchanged_by_use"] = {"processes": len(outs), "entries_changed": changed[:20]}
+    if changed or any(o.get("dump_sha_after_use") != ast_sha for o in outs):
+        by_proc = [o for o in outs if o.get("tables_changed_by_use")]
+        ctx.violation({"kind": "tables-modified-at-run-time", "entries_changed": changed[:40],
+                       "history": "import matid; run SymmetryAnalyzer (conventional/primitive system, material id, get_wyckoff_sets_conventional(return_parameters=True), ...) on "
+                                  "the crystals `crystals`; the module-level tables WYCKOFF_SETS / normalizers / SPACE_GROUP_INFO then differ from the source text "
+                                  "(expression strings no longer equal to their matrices and constants for the listed entries)",
+                       "crystals": [c for c in crystals if ("wyck:%d:" % c["crystal"].get("sg", -1)) in " ".join(changed)][:3] or crystals[:1],
+                       "ast_sha": ast_sha, "sha_after_use": sorted({o.get("dump_sha_after_use") for o in outs})[:3]}, found_input=True)
     cases = []
     info_fail = []
     for r in rows:
@@ -301,6 +312,12 @@ def replay(ctx, rep):
             ctx.violation(rep, found_input=True)
         else:
             print("replay: the table coordinate satisfies the predicate now")
+    elif rep.get("kind") == "tables-modified-at-run-time":
+        o = C.impl_run("c14_impl", {"info": rep["crystals"], "use_then_dump": True})
+        if o.get("tables_changed_by_use"):
+            ctx.violation(rep, found_input=True)
+        else:
+            print("replay: the tables are unchanged after use now")
     elif "crystal" in rep and "implementation" in rep:
         o = C.impl_run("c14_impl", {"info": [{"id": rep["sg"], "crystal": rep["crystal"]}]})["info"][0]
         if o != rep["implementation"]:
